@@ -70,7 +70,9 @@ class ICMP(Service, discriminator="icmp"):
             return False
         if target_ip_address.is_loopback:
             self.sys_log.info("Pinging loopback address")
-            return any(network_interface.enabled for network_interface in self.network_interfaces.values())
+            return any(
+                network_interface.enabled for network_interface in self.software_manager.node.network_interfaces.values()
+            )
         self.sys_log.info(f"Pinging {target_ip_address}:", to_terminal=False)
         sequence, identifier = 0, None
         while sequence < pings:
